@@ -193,3 +193,231 @@ def longest_from(r, w, s):
         if _nullable(r):
             best = k + 1
     return best
+
+
+# ---- patterns as Python OBJECTS ----------------------------------------------------------
+# The property quantifies over syntax trees.  One tree can be written as many different Python
+# values: over any alphabet of (hashable, pairwise different) items, with a one-item operand
+# written bare (`Optional('def')`) or as a list (`Optional(['def'])`), and with structurally equal
+# sub-trees being ONE operator object used at several places (within a pattern, or in several
+# patterns of a session).  None of this may matter; the streams built on `build_expr` check that.
+
+ALPHABETS = {
+    # atom number 1..4 -> item (atoms 1..3 occur in patterns, 4 is the noise item of the sequences)
+    "letters": ["a", "b", "c", "x"],
+    "ints": [1, 2, 3, 4],
+    # items that are themselves Python sequences of length 0, 1, 2, 3
+    "words": ["def", "", "()", "name"],
+    "pairs": [("Keyword", "def"), ("a",), (), ("Name", "f")],
+    "values": [b"ab", frozenset((1, 2)), range(2), None],
+}
+SPELLINGS = ("list", "bare")
+SHARINGS = ("none", "pattern", "history")
+
+
+def sym_of(alphabet):
+    items = ALPHABETS[alphabet]
+    return lambda k: items[k - 1] if k <= len(items) else ("item", k)
+
+
+def unsym(alphabet, item):
+    """the atom number of an item of the alphabet (inverse of sym_of)"""
+    items = ALPHABETS[alphabet]
+    for i, x in enumerate(items):
+        if type(x) is type(item) and x == item:
+            return i + 1
+    if isinstance(item, tuple) and len(item) == 2 and item[0] == "item":
+        return item[1]
+    raise ValueError("not an item of alphabet %s: %r" % (alphabet, item))
+
+
+def build_expr(r, alphabet="letters", spelling="list", cache=None):
+    """the real expression (a Python list) for the tree r.
+    cache: None = a new operator object per node; a dict = one operator object per distinct
+    sub-tree (the dict may live longer than one pattern: objects shared between patterns)."""
+    from codelimit.common.gsm.operator.OneOrMore import OneOrMore
+    from codelimit.common.gsm.operator.Optional import Optional
+    from codelimit.common.gsm.operator.Union import Union
+    from codelimit.common.gsm.operator.ZeroOrMore import ZeroOrMore
+    sym = sym_of(alphabet)
+    bare = spelling == "bare"
+
+    def seq(r):
+        if r[0] == "c":
+            return seq(r[1]) + seq(r[2])
+        return [one(r)]
+
+    def operand(r):
+        if bare and r[0] != "c":
+            return one(r)          # Optional('def'), Optional(Union(..)): a single item, not wrapped
+        return seq(r)
+
+    def one(r):
+        if r[0] == "a":
+            return sym(r[1])
+        if cache is not None and r in cache:
+            return cache[r]
+        if r[0] == "u":
+            e = Union(operand(r[1]), operand(r[2]))
+        else:
+            e = {"o": Optional, "s": ZeroOrMore, "p": OneOrMore}[r[0]](operand(r[1]))
+        if cache is not None:
+            cache[r] = e
+        return e
+
+    return seq(r)
+
+
+def show_expr(r, alphabet="letters", spelling="list"):
+    """Python source of what build_expr makes"""
+    sym = sym_of(alphabet)
+    bare = spelling == "bare"
+
+    def items(r):
+        if r[0] == "c":
+            return items(r[1]) + items(r[2])
+        return [one(r)]
+
+    def operand(r):
+        if bare and r[0] != "c":
+            return one(r)
+        return "[" + ", ".join(items(r)) + "]"
+
+    def one(r):
+        if r[0] == "a":
+            return repr(sym(r[1]))
+        name = {"u": "Union", "o": "Optional", "s": "ZeroOrMore", "p": "OneOrMore"}[r[0]]
+        return "%s(%s)" % (name, ", ".join(operand(x) for x in r[1:]))
+
+    return "[" + ", ".join(items(r)) + "]"
+
+
+def subtrees(r, out=None):
+    """the operator sub-trees of r (the keys a shared-object cache would use)"""
+    out = set() if out is None else out
+    if r[0] != "a":
+        if r[0] != "c":
+            out.add(r)
+        for x in r[1:]:
+            subtrees(x, out)
+    return out
+
+
+def random_dag(rnd, size, atoms=(1, 2, 3), reuse=0.45):
+    """a random tree in which sub-trees repeat on purpose (so that a shared-object build has
+    operator objects with several parents)"""
+    pool = []
+
+    def gen(size):
+        if size <= 1:
+            return ("a", rnd.choice(atoms))
+        fit = [p for p in pool if node_count(p) <= size]
+        if fit and rnd.random() < reuse:
+            return rnd.choice(fit)
+        if size == 2 or rnd.random() < 0.35:
+            r = (rnd.choice(UN), gen(size - 1))
+        else:
+            k = rnd.randint(1, size - 2)
+            r = (rnd.choice(BIN), gen(k), gen(size - 1 - k))
+        if r[0] != "c":
+            pool.append(r)
+        return r
+
+    return gen(size)
+
+
+def node_count(r):
+    return 1 if r[0] == "a" else 1 + sum(node_count(x) for x in r[1:])
+
+
+def cat_all(rs):
+    """the sequence of the trees rs as a BALANCED 'c' tree (depth log n)"""
+    rs = list(rs)
+    if len(rs) == 1:
+        return rs[0]
+    m = len(rs) // 2
+    return ("c", cat_all(rs[:m]), cat_all(rs[m:]))
+
+
+def nest(r, op, depth):
+    for _ in range(depth):
+        r = (op, r)
+    return r
+
+
+# ---- second, independent reference: position automaton (Glushkov), linear in the word ------
+# used for the long rungs of the size ladders, where derivatives may grow
+
+def glushkov(r):
+    """-> (nullable, first, last, follow, symbol-of-position)"""
+    pos = []
+
+    def go(r):
+        t = r[0]
+        if t == "a":
+            pos.append(r[1])
+            p = len(pos) - 1
+            return False, {p}, {p}
+        if t == "c":
+            n1, f1, l1 = go(r[1])
+            n2, f2, l2 = go(r[2])
+            for p in l1:
+                follow.setdefault(p, set()).update(f2)
+            return n1 and n2, f1 | (f2 if n1 else set()), l2 | (l1 if n2 else set())
+        if t == "u":
+            n1, f1, l1 = go(r[1])
+            n2, f2, l2 = go(r[2])
+            return n1 or n2, f1 | f2, l1 | l2
+        n1, f1, l1 = go(r[1])
+        if t in ("s", "p"):
+            for p in l1:
+                follow.setdefault(p, set()).update(f1)
+        return (n1 if t == "p" else True), f1, l1
+
+    follow = {}
+    n, f, l = go(r)
+    return n, f, l, follow, pos
+
+
+class PosRef:
+    def __init__(self, r):
+        self.null, self.first, self.last, self.follow, self.pos = glushkov(r)
+
+    def run(self, w, s=0):
+        """yields after each consumed item k (from s): (k + 1, alive?, accepting?)"""
+        cur = None
+        for k in range(s, len(w)):
+            cand = self.first if cur is None else set().union(*[self.follow.get(p, ()) for p in cur]) if cur else set()
+            cur = {p for p in cand if self.pos[p] == w[k]}
+            yield k + 1, bool(cur), bool(cur & self.last)
+            if not cur:
+                return
+
+    def in_lang(self, w):
+        if not w:
+            return self.null
+        last = (0, False, False)
+        for last in self.run(w):
+            pass
+        return last[0] == len(w) and last[2]
+
+    def shortest_prefix(self, w):
+        for k, alive, acc in self.run(w):
+            if acc:
+                return k
+        return None
+
+    def longest_from(self, w, s):
+        best = None
+        for k, alive, acc in self.run(w, s):
+            if acc:
+                best = k
+        return best
+
+    def greedy_finish(self, w, p):
+        k_end, ok = p, False
+        for k, alive, acc in self.run(w, p):
+            if not alive:
+                break
+            k_end, ok = k, acc
+        return k_end, ok
